@@ -535,3 +535,22 @@ pub enum Response {
     Immutable(Box<[u8]>),
     Mutable(MutableItem),
 }
+
+#[cfg(mainline_verif)]
+impl Core {
+    /// Verification hook: the cached finished lookups, most recently used first.
+    pub fn verif_cache(&self) -> Vec<(Id, bool, f64, f64, u8)> {
+        self.cached_iterative_queries
+            .iter()
+            .map(|(id, c)| {
+                (
+                    *id,
+                    matches!(c.request_type, RequestTypeSpecific::FindNode(_)),
+                    c.dht_size_estimate,
+                    c.responders_dht_size_estimate,
+                    c.subnets,
+                )
+            })
+            .collect()
+    }
+}
